@@ -303,3 +303,38 @@ pub proof fn lemma_trunc_to_floor(x: int, y: int)
         lemma_div_mod_unique(-x, -y, fq, -fr);
     }
 }
+
+/// the same fact stated directly over Verus' meaning of exec `/` and `%` on signed machine integers
+pub proof fn lemma_rust_floor(x: int, y: int)
+    requires y != 0
+    ensures
+        ({
+            let q = vstd::arithmetic::div_mod::rust_div(x, y);
+            let r = vstd::arithmetic::div_mod::rust_rem(x, y);
+            &&& ((r > 0 && y < 0) || (r < 0 && y > 0)) ==> (floor_quot(x, y) == q - 1 && floor_rem(x, y) == r + y)
+            &&& !((r > 0 && y < 0) || (r < 0 && y > 0)) ==> (floor_quot(x, y) == q && floor_rem(x, y) == r)
+            // range facts (needed to see that the machine-integer results are not clipped)
+            &&& abs_int(q) <= abs_int(x)
+            &&& abs_int(r) < abs_int(y)
+            &&& (r != 0 ==> 2 * abs_int(q) <= abs_int(x))
+            &&& (in_i128(x) && !(x == i128::MIN && y == -1) ==> in_i128(q))
+            &&& (in_i128(y) ==> in_i128(r))
+        }),
+{
+    lemma_rust_div(x, y);
+    lemma_trunc_div_rem(x, y);
+    lemma_trunc_to_floor(x, y);
+    let q = trunc_div(x, y);
+    if in_i128(x) && !(x == i128::MIN && y == -1) && x == i128::MIN {
+        let ax = abs_int(x);
+        let ay = abs_int(y);
+        if ay == 1 {
+            assert(y == 1);
+            vstd::arithmetic::div_mod::lemma_div_basics_3(ax);
+            assert(q == x);
+        } else {
+            vstd::arithmetic::div_mod::lemma_div_is_ordered_by_denominator(ax, 2, ay);
+            assert(ax / 2 < ax);
+        }
+    }
+}
